@@ -10,6 +10,13 @@
    The events, times and oracle draws of a run are arbitrary ("any loss, duplication, reordering,
    delay, challenge or re-keying by either side").
 
+   Overview.  Part 1: "never two, never both" (at_most_one_outcome) - proved for every configuration.
+   Part 2: maps_in_sync - proved under oracle freshness.  Part 3: progress - the invariant
+   no_orphans is proved for the repaired configuration and refuted for the pinned behaviour
+   (D2a); the counters that bound retransmission by timeouts are proved (timeout_bounded_partial).
+   NOT proved: "never neither" as a liveness statement (drain: firing the armed timers empties
+   pending and active), the per-key datagram count over a run (wire_bound) and timeout_justified.
+
    Part 1 (this section): "never two, never both" - at most one terminal event per request id and
    nothing after it.  Hypothesis: the request ids are fresh, i.e. the ids the application submits
    (EvRequest) and the internal ids the handler draws for the FINDNODE[0] of an ENR-less contact
@@ -20,7 +27,8 @@
    the request after the step that reported it ([is_terminal]; every HResponse is the last output
    of its step).  [C04_nonterminal_response_is_partial_nodes] ties this to the content. *)
 From Coq Require Import List Arith NArith Bool.
-From Discv5V Require Import Model.Handler Proofs.HandlerInv Proofs.HandlerA_Ledger.
+From Discv5V Require Import Model.Handler Proofs.HandlerInv Proofs.HandlerA_Ledger Proofs.HandlerA_Nonce
+  Proofs.HandlerA_Progress.
 Import ListNotations.
 
 (* [all_rids h]: the ids of the requests held in the active requests and in the pending queues;
@@ -102,3 +110,122 @@ Proof.
   split; [exact ex_outcome_fresh|]. split; [exact (proj1 ex_outcome_trace)|exact ex_outcome_midway].
 Qed.
 Print Assumptions C04_hypotheses_satisfiable.
+
+(* ------------------------------------------------------------------------------------------ *)
+(* Part 2: maps_in_sync - the nonce map and the request lists of ActiveRequests agree, which makes
+   the "nonce mismatch" branches of remove_by_nonce and of the timeout stream unreachable.
+   Hypothesis [fresh_run]: FRESHNESS of the oracle - at every step the second components (the
+   random eight bytes) of the nonces still to be drawn are pairwise distinct and differ from those
+   of all nonces in the nonce map of the state the step starts in ([fresh_draws]), and the list of
+   draws handed to the step is not exhausted by it ([not_exhausted]: pop_pk on an exhausted list
+   returns zeros, which are not fresh).  A statement about rand. *)
+
+Theorem C04_maps_in_sync_step :
+  forall c h e now d, Sync h -> fresh_draws h d -> not_exhausted c h e now d -> Sync (fst (step c h e now d)).
+Proof. exact step_sync. Qed.
+Print Assumptions C04_maps_in_sync_step.
+
+Theorem C04_maps_in_sync :
+  forall c evs, fresh_run c init_state evs ->
+  let h := fst (run c init_state evs) in
+  (forall n na d, In (n, na, d) (nmap h) ->
+     exists l r, alist_get na (active h) = Some l /\ In r l /\ rc_nonce r = n) /\
+  (forall na l r, In (na, l) (active h) -> In r l -> nmap_get (rc_nonce r) (nmap h) = Some na) /\
+  (forall na l, In (na, l) (active h) -> NoDup (map rc_nonce l)) /\
+  NoDup (map fst (active h)).
+Proof. exact maps_in_sync. Qed.
+Print Assumptions C04_maps_in_sync.
+
+(* under Sync, remove_by_nonce finds the request whenever the nonce is a key of the nonce map *)
+Theorem C04_nonce_mismatch_unreachable :
+  forall h n h' found, Sync h -> ar_remove_by_nonce h n = (h', found) ->
+  match found with
+  | Some (na, r) => nmap_get n (nmap h) = Some na /\ rc_nonce r = n
+  | None => nmap_get n (nmap h) = None /\ h' = h
+  end.
+Proof.
+  intros h n h' found S E. pose proof (Sync_remove_by_nonce h n h' found S E) as X.
+  destruct found as [[na r]|]; [|exact X]. destruct X as (A & B & _). auto.
+Qed.
+Print Assumptions C04_nonce_mismatch_unreachable.
+
+Example C04_fresh_run_satisfiable :
+  fresh_run (ex_cfg true) init_state ex_sync_events /\
+  let h := fst (run (ex_cfg true) init_state ex_sync_events) in
+  map (fun e => fst (fst e)) (nmap h) = [(60, 61); (1, 91)]%N /\
+  map (fun e => map rc_nonce (snd e)) (active h) = [[(60, 61); (1, 91)]%N].
+Proof. split; [exact ex_sync_fresh|exact ex_sync_state]. Qed.
+Print Assumptions C04_fresh_run_satisfiable.
+
+(* ------------------------------------------------------------------------------------------ *)
+(* Part 3: progress ("never neither") *)
+
+(* The pinned behaviour (DESIGN.md section 7, D2a: the update branch of new_session does not release
+   the pending requests) violated it: both sides dial each other, and a request queued behind our
+   WHOAREYOU is left in the pending queue with no timer armed at all - no challenge, no active
+   request, empty nonce map.  Record of the finding. *)
+Theorem C04_pinned_orphan_refuted :
+  exists c evs na, fix_d2a c = false /\
+    let h := fst (run c init_state evs) in
+    (exists q l, alist_get na (pending h) = Some (q :: l)) /\
+    challenges h = [] /\ active h = [] /\ nmap h = [].
+Proof. exact pinned_orphan_refuted. Qed.
+Print Assumptions C04_pinned_orphan_refuted.
+
+(* no_orphans: with the repair, in every reachable state every node address with queued requests
+   has a pending challenge (its timer releases the queue: fire_challenge -> send_pending_requests)
+   or - no session yet - an active session-initiating request (whose timer re-sends it and finally
+   fails it together with the queue: fail_request -> fail_session).  By C04_maps_in_sync every
+   active request has its entry (= its armed timer) in the nonce map.  This is the invariant; that
+   firing the armed timers empties both maps within a bounded number of steps ("drain") is not
+   proved. *)
+Theorem C04_no_orphans :
+  forall c evs, fixed_cfg c ->
+  let h := fst (run c init_state evs) in
+  forall na l, alist_get na (pending h) = Some l ->
+    (exists ch d, In (na, ch, d) (challenges h)) \/
+    (alist_get na (sessions h) = None /\
+     exists rs r, alist_get na (active h) = Some rs /\ In r rs /\ rc_init r = true).
+Proof. intros c evs (_ & D2 & _). exact (no_orphans c evs D2). Qed.
+Print Assumptions C04_no_orphans.
+
+(* timeout_bounded (partial: the statement about the number of datagrams per request and session
+   key over a whole run - wire_bound - and timeout_justified are not proved).  What is proved: the
+   transmission counter of every stored request stays within [1, max 1 retries]; the timeout
+   handler sends nothing and fails the request when the counter has reached retries, and otherwise
+   sends exactly one copy of the stored packet and increments the counter.  So a stored packet is
+   re-sent by timeouts at most retries - 1 times after its first transmission (the counter starts
+   at 1 in send_request and is kept when a handshake or a re-keyed copy replaces the packet). *)
+Theorem C04_timeout_bounded_partial :
+  (forall c evs, fixed_cfg c ->
+     let h := fst (run c init_state evs) in
+     forall na rs r, In (na, rs) (active h) -> In r rs ->
+       c_naddr (rc_contact r) = na /\ (1 <= rc_retries r)%N /\ (rc_retries r <= N.max 1 (cfg_retries c))%N) /\
+  (forall c s na r now, (cfg_retries c <= rc_retries r)%N ->
+     wcount (outs (handle_request_timeout c s na r now)) = wcount (outs s) /\
+     (rc_ext r = true ->
+      In (OEvent (HRequestFailed (rc_rid r) ERR_TIMEOUT)) (outs (handle_request_timeout c s na r now)))) /\
+  (forall c s na r now, (rc_retries r < cfg_retries c)%N ->
+     outs (handle_request_timeout c s na r now) = outs s ++ [OWire na (rc_pkt r)] /\
+     hs (handle_request_timeout c s na r now) =
+       ar_insert c (hs s) na
+         {| rc_contact := rc_contact r; rc_pkt := rc_pkt r; rc_ext := rc_ext r; rc_rid := rc_rid r;
+            rc_body := rc_body r; rc_hs_sent := rc_hs_sent r; rc_retries := rc_retries r + 1;
+            rc_remaining := rc_remaining r; rc_init := rc_init r |} now).
+Proof.
+  split; [|split].
+  - intros c evs (_ & D2 & _). exact (stored_requests_bounded c evs D2).
+  - exact timeout_exhausted.
+  - exact timeout_rearmed.
+Qed.
+Print Assumptions C04_timeout_bounded_partial.
+
+(* non-trivial instance: the D2a events with the repair; while request 101 is queued, the challenge
+   for the peer is pending; after the peer's handshake the queue is released *)
+Example C04_no_orphans_instance :
+  (let h := fst (run (ex_cfg true) init_state (firstn 5 ex_orphan_events)) in
+   (exists q, alist_get (2%N, 20%N) (pending h) = Some [q]) /\ length (challenges h) = 1 /\ length (sessions h) = 1) /\
+  (let h := fst (run (ex_cfg true) init_state ex_orphan_events) in
+   pending h = [] /\ map rc_rid (concat (map snd (active h))) = [101%N]).
+Proof. split; [exact no_orphans_example|exact fixed_no_orphan]. Qed.
+Print Assumptions C04_no_orphans_instance.
